@@ -101,7 +101,8 @@ def molecules(draw, families=None, min_active=2, max_active=4, refs=("rhf", "roh
                 must.append(draw(st.sampled_from(virt)))
         lo = max(min_active, len(must), 1)
         hi = max(min(max_active, n_mos), lo)
-        if n_mos > hi or draw(st.integers(0, 99)) < int(100 * frozen_prob):
+        n_true = max(0, min(4, round(4 * frozen_prob)))
+        if n_mos > hi or draw(st.sampled_from([False] * (4 - n_true) + [True] * n_true)):
             k = draw(st.integers(lo, hi))
         else:
             k = hi
